@@ -173,6 +173,15 @@ func runC16Dir(em *vEmitter, r *vRng, idx int) {
 		}
 		ops = append(ops, vOp{kind: "check"})
 	}
+	// a password change of every administrator there is (successful or not - '.tmp' may be a file, the
+	// record unsupported): neither a removal nor a demotion, so a valid directory stays valid
+	if ents, err := os.ReadDir(h.base); err == nil {
+		for _, e := range ents {
+			if strings.HasSuffix(e.Name(), ".admin") && !e.IsDir() && len(ops) < 16 {
+				ops = append(ops, vOp{kind: "update", u: strings.TrimSuffix(e.Name(), ".admin"), pw: []byte("adminpw2")}, vOp{kind: "check"})
+			}
+		}
+	}
 	for _, o := range ops {
 		h.exec(o)
 	}
